@@ -43,6 +43,26 @@ T_OBase == {"%rax", "%r8", "%r8d", "%rbx", "%eax"}
 T_OIndex == {<<"", "">>, <<"%rbx", "4">>, <<"%r8", "1">>, <<"%rbx", "8">>, <<"%rax", "4">>, <<"%rbx", "1">>, <<"%rax", "2">>, <<"%r8", "4">>, <<"%riz", "1">>, <<"%eiz", "1">>, <<"%riz", "2">>}
 T_ODisp == {"", "0x8", "-0x8", "0x80", "0x0", "0x18", "0x88", "0xa8", "0xff"}
 
+\* ---- operands with a segment override -------------------------------------------------------------------
+\* C09 does not fix a normal form for `%fs:0x8(%rax)', so these cases are judged on the operand text the code
+\* itself put into the stream (Trace_Match, obs): whatever that text is, it carries the segment as an extra
+\* component, and a $deref without that component must not match it (C06: "no operand with an extra component")
+SegLines == { InsnLine("401000", <<"90">>, "mov", <<Mem("%fs:0x8", "%rax", "", ""), Reg("%ecx")>>),
+              InsnLine("401000", <<"90">>, "mov", <<Mem("0x8", "%rax", "", ""), Reg("%ecx")>>),
+              InsnLine("401000", <<"90">>, "scas", <<Mem("%es:", "%rdi", "", ""), Reg("%al")>>),
+              InsnLine("401000", <<"90">>, "scas", <<Mem("", "%rdi", "", ""), Reg("%al")>>),
+              InsnLine("401000", <<"90">>, "stos", <<Reg("%al"), Mem("%es:", "%rdi", "", "")>>),
+              InsnLine("401000", <<"90">>, "mov", <<Mem("%gs:", "%rax", "%rbx", "8"), Reg("%rcx")>>),
+              InsnLine("401000", <<"90">>, "mov", <<Mem("", "%rax", "%rbx", "8"), Reg("%rcx")>>),
+              InsnLine("401000", <<"90">>, "mov", <<Mem("%fs:0x10", "%rax", "%rbx", "4"), Reg("%ecx")>>),
+              InsnLine("401000", <<"90">>, "mov", <<Mem("0x10", "%rax", "%rbx", "4"), Reg("%ecx")>>) }
+SegSeq == SetToSeq(SegLines)
+SegDerefs == { DerefOf("rax", <<>>, "0x8"), DerefOf("rdi", <<>>, ""), DerefOf("rax", <<"rbx", "8">>, ""), DerefOf("rax", <<"rbx", "4">>, "0x10") }
+PatternsS == { PAnd(<<PIns(m, <<d>>)>>) : m \in {"mov", "scas"}, d \in SegDerefs }
+        \cup { PAnd(<<PIns("stos", <<OLit("al"), d>>)>>) : d \in SegDerefs }
+UniverseS == [patterns |-> SetToSeq(PatternsS),
+              listings |-> [n \in DOMAIN SegSeq |-> Stream(<<SegSeq[n]>>)],
+              texts    |-> [n \in DOMAIN SegSeq |-> ListingLines(<<SegSeq[n]>>)]]
 Universe == [patterns |-> SetToSeq(Patterns),
              listings |-> [n \in DOMAIN LineSeq |-> Stream(<<LineSeq[n]>>)],
              texts    |-> [n \in DOMAIN LineSeq |-> ListingLines(<<LineSeq[n]>>)]]
